@@ -250,6 +250,34 @@ def rule_rows(prog, rep, fn):
         r7.add(f"row-selection|loop{k}", okc and bool(sel), f"rows are selected by {sel}", where)
 
 
+    # models are handed on in the order in which they first appear in the file (the PDB reader keeps the first MODEL it meets)
+    from ..guards import Flow
+    from ..objinterp import ObjRunner
+    nums = ["9", "9", "10", "10", "9", "2"]
+    atoms_m = {"__class__": "DataCategory", "row_count": len(nums)}
+    block_m = {"__class__": "DataContainer"}
+
+    def extra(runner, interp, call, args, kw):
+        if isinstance(call.func, ast.Attribute) and call.func.attr in ("get_object", "get_value"):
+            recv = interp.ev(call.func.value)
+            if recv is block_m and call.func.attr == "get_object" and args == ["atom_site"]:
+                return atoms_m
+            if recv is atoms_m and call.func.attr == "get_value" and args and args[0] == "pdbx_PDB_model_num":
+                return nums[args[1]]
+        return NotImplemented
+
+    cm = prog.func("cif.py", "count_models")
+    run = ObjRunner(prog, "cif.py", extra_hook=extra)
+    try:
+        got = run.call_function("cif.py", "count_models", block_m)
+    except Flow as fl:
+        got = f"raises {fl.value}"
+    want = ["9", "10", "2"]
+    r7.add("model-order", got == want, f"rows with model numbers {nums}: count_models yields {got}; order of first appearance is {want}" +
+           ("" if got == want else " -- the first model emitted (the only one the pipeline keeps) is then not the first model of the file"),
+           f"pdb2pqr/cif.py:{cm.node.lineno} (count_models)")
+
+
 def _strip_rec(sig):
     out = []
     for s in sig:
